@@ -22,3 +22,32 @@ package sqlx
 //@   loop 1 invariant 0 <= loopk && loopk <= len(loopx)
 //@   loop 1 invariant reversible == (forall j int :: 0 <= j && j < loopk ==> migrate.GvcRevLen(p.Changes[j]) > 0)
 //@   loop 1 invariant (forall j int :: 0 <= j && j < loopk ==> migrate.GvcRevOK(p.Changes[j]))
+
+// ---------------------------------------------------------------------------------------
+// C14: DevDriver brackets every mutation of the dev database between a successful Snapshot
+// and its restore function (ghost typestate declared in package migrate).
+
+//@ import "context"
+//@ extern func (d migrate.PlanApplier) ApplyChanges(ctx context.Context, changes []schema.Change, opts ...migrate.PlanOption) (err error)
+//@   effect if !migrate.GvcSnapOpen { migrate.GvcUnprotected = true }; migrate.GvcDirty = true
+//@ extern func (i schema.Inspector) InspectRealm(ctx context.Context, opts *schema.InspectRealmOption) (r *schema.Realm, err error)
+//@   ensures err == nil ==> r != nil
+//@ extern func (i schema.Inspector) InspectSchema(ctx context.Context, name string, opts *schema.InspectOptions) (s *schema.Schema, err error)
+//@   ensures err == nil ==> s != nil
+//@ extern func (d schema.Differ) SchemaDiff(from, to *schema.Schema, opts ...schema.DiffOption) (cs []schema.Change, err error)
+
+//@ func (d *DevDriver) NormalizeRealm(ctx context.Context, r *schema.Realm) (nr *schema.Realm, err error)
+//@   requires d != nil && d.Driver != nil && r != nil && !migrate.GvcSnapOpen
+//@   modifies everything
+//@   ensures snapshot-first: migrate.GvcSnapCalls == old(migrate.GvcSnapCalls) + 1 && migrate.GvcUnprotected == old(migrate.GvcUnprotected)
+//@   ensures refused-snapshot-touches-nothing: migrate.GvcSnapErr != nil ==> err != nil && migrate.GvcDirty == old(migrate.GvcDirty) && migrate.GvcRestoreCalls == old(migrate.GvcRestoreCalls)
+//@   ensures always-restored: migrate.GvcSnapErr == nil ==> migrate.GvcRestoreCalls == old(migrate.GvcRestoreCalls) + 1 && !migrate.GvcSnapOpen && (migrate.GvcRestoreErr == nil ==> !migrate.GvcDirty)
+//@   ensures restore-error-reported: migrate.GvcSnapErr == nil && migrate.GvcRestoreErr != nil ==> err != nil
+
+//@ func (d *DevDriver) NormalizeSchema(ctx context.Context, s *schema.Schema) (ns *schema.Schema, err error)
+//@   requires d != nil && d.Driver != nil && s != nil && !migrate.GvcSnapOpen
+//@   modifies everything
+//@   ensures snapshot-first: migrate.GvcSnapCalls == old(migrate.GvcSnapCalls) + 1 && migrate.GvcUnprotected == old(migrate.GvcUnprotected)
+//@   ensures refused-snapshot-touches-nothing: migrate.GvcSnapErr != nil ==> err != nil && migrate.GvcDirty == old(migrate.GvcDirty) && migrate.GvcRestoreCalls == old(migrate.GvcRestoreCalls)
+//@   ensures always-restored: migrate.GvcSnapErr == nil ==> migrate.GvcRestoreCalls == old(migrate.GvcRestoreCalls) + 1 && !migrate.GvcSnapOpen && (migrate.GvcRestoreErr == nil ==> !migrate.GvcDirty)
+//@   ensures restore-error-reported: migrate.GvcSnapErr == nil && migrate.GvcRestoreErr != nil ==> err != nil
